@@ -129,7 +129,16 @@ func batchOps(fn *ssa.Function) map[string]map[string][]ssa.Instruction {
 				if !strings.HasSuffix(a.Type().String(), "storage.Batch") || ai >= len(g.Params) {
 					continue
 				}
-				for _, ko := range helperBatchWrites(g, g.Params[ai], 0, map[*ssa.Function]bool{fn: true}) {
+				var env map[int]string
+				for bi, b := range call.Common().Args {
+					if k := storageKind(b); k != "" && bi != ai {
+						if env == nil {
+							env = map[int]string{}
+						}
+						env[bi] = k
+					}
+				}
+				for _, ko := range helperBatchWritesEnv(g, g.Params[ai], 0, map[*ssa.Function]bool{fn: true}, env) {
 					batchOfSite[call] = a
 					add(ko[0], ko[1], call)
 				}
@@ -142,10 +151,21 @@ func batchOps(fn *ssa.Function) map[string]map[string][]ssa.Instruction {
 // helperBatchWrites lists the (kind, operation) pairs that function g performs on the storage batch it receives as
 // parameter p - in its own body, in its closures (which capture p), and in further ledger helpers it hands p to.
 func helperBatchWrites(g *ssa.Function, p *ssa.Parameter, depth int, seen map[*ssa.Function]bool) [][2]string {
-	if seen[g] || depth > 3 {
+	return helperBatchWritesEnv(g, p, depth, seen, nil)
+}
+
+// helperBatchWritesEnv: kinds maps parameter indices of g to the storage kind of the key the caller passes there
+// (a helper such as restorePrevValue(batch, key, prev) writes under a key it receives).
+func helperBatchWritesEnv(g *ssa.Function, p *ssa.Parameter, depth int, seen map[*ssa.Function]bool, kinds map[int]string) [][2]string {
+	if depth > 3 {
 		return nil
 	}
-	seen[g] = true
+	if kinds == nil {
+		if seen[g] {
+			return nil
+		}
+		seen[g] = true
+	}
 	var out [][2]string
 	isP := func(rv ssa.Value) bool {
 		if rv == nil {
@@ -162,11 +182,20 @@ func helperBatchWrites(g *ssa.Function, p *ssa.Parameter, depth int, seen map[*s
 		fv, ok := inner.(*ssa.FreeVar)
 		return ok && fv.Name() == p.Name()
 	}
+	kindOf := func(key ssa.Value) string {
+		if k := storageKind(key); k != "" {
+			return k
+		}
+		if pi := paramIndex(g, key); pi >= 0 {
+			return kinds[pi]
+		}
+		return ""
+	}
 	for _, gf := range core.WithClosures(g) {
 		for _, gc := range core.Calls(gf) {
 			if isStorageWrite(gc) {
 				if isP(core.Receiver(gc)) {
-					if k := storageKind(core.Arg(gc, 0)); k != "" {
+					if k := kindOf(core.Arg(gc, 0)); k != "" {
 						out = append(out, [2]string{k, core.CalleeObj(gc).Name()})
 					}
 				}
@@ -178,7 +207,17 @@ func helperBatchWrites(g *ssa.Function, p *ssa.Parameter, depth int, seen map[*s
 			}
 			for ai, a := range gc.Common().Args {
 				if ai < len(h.Params) && strings.HasSuffix(a.Type().String(), "storage.Batch") && isP(a) {
-					out = append(out, helperBatchWrites(h, h.Params[ai], depth+1, seen)...)
+					// storage kinds of the other arguments, for helpers that write under a key they are given
+					var env map[int]string
+					for bi, b := range gc.Common().Args {
+						if k := kindOf(b); k != "" && bi != ai {
+							if env == nil {
+								env = map[int]string{}
+							}
+							env[bi] = k
+						}
+					}
+					out = append(out, helperBatchWritesEnv(h, h.Params[ai], depth+1, seen, env)...)
 				}
 			}
 		}
@@ -294,10 +333,10 @@ func C12(c *Ctx) {
 
 	// R12.2
 	if rs != nil {
-		isRevert := func(in ssa.Instruction) bool {
+		isRevert := c.throughHelpers(func(in ssa.Instruction) bool {
 			call, ok := in.(ssa.CallInstruction)
 			return ok && strings.HasSuffix(core.CalleeName(call), "ledger.revertJournal")
-		}
+		})
 		n := c.mustPrecede("R12.2", "RollbackState", rs, func(in ssa.Instruction) bool {
 			call, ok := in.(ssa.CallInstruction)
 			return ok && strings.HasSuffix(core.CalleeName(call), "SimpleLedger).Clear")
@@ -371,17 +410,44 @@ func C12(c *Ctx) {
 		ok, why := sameBatchOps(cw, []string{"journal", "journal-max", "account", "state"})
 		r.Check(ok, "R12.3", "Commit: journal record, max marker and data in one batch", c.P.Pos(commit.Pos()), "all put into the same storage batch", "the journal of a height is not committed atomically with that height's data: "+why)
 		// rollback loop: per-iteration batch
-		rops := batchOps(rs)
+		// the per-height work may sit in helpers of the ledger (revertBlockJournal(height) with its own batch)
+		rops := map[string]map[string][]ssa.Instruction{}
+		var rsFns []*ssa.Function
+		for _, rf := range c.regionOf(rs, 2) {
+			if rf.fn.Parent() != nil {
+				continue
+			}
+			rsFns = append(rsFns, rf.fn)
+			for k, m := range batchOps(rf.fn) {
+				for op, ins := range m {
+					if rops[k] == nil {
+						rops[k] = map[string][]ssa.Instruction{}
+					}
+					rops[k][op] = append(rops[k][op], ins...)
+				}
+			}
+		}
 		okDel := len(rops["journal"]["Delete"]) > 0 && len(rops["journal-max"]["Put"]) > 0
 		r.Check(okDel, "R12.3", "RollbackState: journal record deleted and max marker lowered per reverted height", c.P.Pos(rs.Pos()), "Delete(journal-<i>) and Put(journal-maxHeight, i-1) in the loop", "a reverted height keeps its journal record or the persistent max-height marker is not lowered")
 		// the revert uses the same batch that is committed in the iteration
 		okBatch := false
-		for _, call := range core.Calls(rs) {
-			if strings.HasSuffix(core.CalleeName(call), "ledger.revertJournal") {
-				b := call.Common().Args[1]
-				for _, in := range rops["journal"]["Delete"] {
-					if sameValue(core.Receiver(in.(ssa.CallInstruction)), b) {
-						okBatch = true
+		reachesRevert := c.throughHelpers(func(in ssa.Instruction) bool {
+			call, ok := in.(ssa.CallInstruction)
+			return ok && strings.HasSuffix(core.CalleeName(call), "ledger.revertJournal")
+		})
+		for _, f := range rsFns {
+			for _, call := range core.Calls(f) {
+				if !reachesRevert(call) {
+					continue
+				}
+				for _, b := range call.Common().Args {
+					if !strings.HasSuffix(b.Type().String(), "storage.Batch") {
+						continue
+					}
+					for _, in := range rops["journal"]["Delete"] {
+						if in.Parent() == f && sameValue(core.Receiver(in.(ssa.CallInstruction)), b) {
+							okBatch = true
+						}
 					}
 				}
 			}
@@ -392,29 +458,47 @@ func C12(c *Ctx) {
 	c.revertJournalWhole("R12.6")
 	// R12.5
 	if rj != nil {
-		ops := batchOps(rj)
 		n5 := 0
 		for kind, flag := range map[string]string{"account": "AccountChanged", "code": "CodeChanged"} {
-			fl := flag
-			es := condEdges(rj, func(f core.Fact, ifi *ssa.If) (bool, int) {
-				if f.Kind == core.FBool && f.Field == fl {
-					return true, holdsEdge(f)
-				}
-				return false, 0
-			})
+			fl, kd := flag, kind
+			// a restore operation of that kind: a batch Put / Delete under a key of the kind, or a call of a ledger
+			// helper that writes under the key it is handed (restorePrevValue(batch, key, prev))
 			isOp := func(in ssa.Instruction) bool {
-				for _, op := range []string{"Put", "Delete"} {
-					for _, x := range ops[kind][op] {
-						if x == in {
-							return true
+				call, ok := in.(ssa.CallInstruction)
+				if !ok {
+					return false
+				}
+				if isStorageWrite(call) {
+					return storageKind(core.Arg(call, 0)) == kd
+				}
+				h := core.StaticCallee(call)
+				if h == nil || len(h.Blocks) == 0 || core.PkgOf(h) != ledgerPkg {
+					return false
+				}
+				for ai, a := range call.Common().Args {
+					if ai >= len(h.Params) || !strings.HasSuffix(a.Type().String(), "storage.Batch") {
+						continue
+					}
+					env := map[int]string{}
+					for bi, b := range call.Common().Args {
+						if storageKind(b) == kd && bi != ai {
+							env[bi] = kd
 						}
+					}
+					if len(env) > 0 && len(helperBatchWritesEnv(h, h.Params[ai], 0, map[*ssa.Function]bool{}, env)) > 0 {
+						return true
 					}
 				}
 				return false
 			}
-			n5 += c.behindEdges("R12.5", "revertJournal: "+kind, rj, es, isOp, "journal."+fl, "restore of the "+kind+" record")
+			n5 += c.behindEdgesDeep("R12.5", "revertJournal: "+kind, rj, func(f core.Fact, ifi *ssa.If) (bool, int) {
+				if f.Kind == core.FBool && f.Field == fl {
+					return true, holdsEdge(f)
+				}
+				return false, 0
+			}, isOp, "journal."+fl, "restore of the "+kind+" record")
 		}
-		r.Floor("R12.5", "account / code restore operations in revertJournal", n5, 4)
+		r.Floor("R12.5", "account / code restore operations in revertJournal", n5, 2)
 	}
 	// captured = restored: getJournalIfModified sets PrevAccount/PrevCode/PrevStates; revertJournal reads them
 	if gj := c.fn("R12.3", "internal/ledger.(*SimpleAccount).getJournalIfModified"); gj != nil && rj != nil {
@@ -429,7 +513,11 @@ func C12(c *Ctx) {
 			}
 		}
 		read := map[string]bool{}
-		for _, b := range rj.Blocks {
+		var rjBlocks []*ssa.BasicBlock
+		for _, rf := range c.regionOf(rj, 2) {
+			rjBlocks = append(rjBlocks, rf.fn.Blocks...)
+		}
+		for _, b := range rjBlocks {
 			for _, in := range b.Instrs {
 				if v, ok := in.(ssa.Value); ok {
 					if o, f, _, ok2 := core.FieldOf(v); ok2 && strings.HasSuffix(o, "blockJournalEntry") {
@@ -465,13 +553,32 @@ func C12(c *Ctx) {
 				hp = p
 			}
 		}
-		for _, in := range sites(rs, storesToField("SimpleLedger", "prevJnlHash")) {
-			st := in.(*ssa.Store)
-			if core.Mentions(st.Val, func(v ssa.Value) bool {
-				cc, ok := v.(*ssa.Call)
-				return ok && strings.HasSuffix(core.CalleeName(cc), "ledger.getBlockJournal") && hp != nil && core.Strip(cc.Call.Args[0]) == ssa.Value(hp)
-			}) {
-				okRead = true
+		// in RollbackState itself, or in a ledger helper that receives the target height (resetJournalHead(height))
+		type hfn struct {
+			f *ssa.Function
+			h *ssa.Parameter
+		}
+		cands := []hfn{{rs, hp}}
+		for _, call := range core.Calls(rs) {
+			g := core.StaticCallee(call)
+			if g == nil || len(g.Blocks) == 0 || core.PkgOf(g) != ledgerPkg || hp == nil {
+				continue
+			}
+			for ai, a := range call.Common().Args {
+				if ai < len(g.Params) && core.Strip(a) == ssa.Value(hp) {
+					cands = append(cands, hfn{g, g.Params[ai]})
+				}
+			}
+		}
+		for _, cd := range cands {
+			for _, in := range sites(cd.f, storesToField("SimpleLedger", "prevJnlHash")) {
+				st := in.(*ssa.Store)
+				if core.Mentions(st.Val, func(v ssa.Value) bool {
+					cc, ok := v.(*ssa.Call)
+					return ok && strings.HasSuffix(core.CalleeName(cc), "ledger.getBlockJournal") && cd.h != nil && core.Strip(cc.Call.Args[0]) == ssa.Value(cd.h)
+				}) {
+					okRead = true
+				}
 			}
 		}
 		r.Check(okRead, "R12.4", "RollbackState: root taken from the target height's journal", c.P.Pos(rs.Pos()), "prevJnlHash = getBlockJournal(height).ChangedHash", "the root restored after a rollback is not the one recorded for the target height")
